@@ -90,6 +90,8 @@ func (ctx *Ctx) cloop(node *node, tpl *Tpl, w io.Writer) {
 			}
 		}
 		ctx.chQB = prevQB
+		// All children reported success (or a loop signal): nothing they left behind is this loop's error.
+		ctx.Err = nil
 
 		// Modify counter var.
 		switch node.loopCntOp {
